@@ -114,6 +114,18 @@ def schedule_cases(rng, tier):
                               b'\\g:1-2-%d*GG\\' % gids[0], b'\\*\\'])
             seqs.append([(bad + make_sentence(rng, None, bodies), None)])
         cases.append(('random', gen.random_interleaving(rng, seqs), tots))
+    # very many groups open at the same time (a feed that multiplexes thousands of sources): the first sentences of
+    # all groups, then the others round-robin
+    for ng in ((1500,) if tier == 'quick' else (1023, 1024, 1025, 1500, 3000)):
+        bodies = Bodies(rng, plain=True)
+        groups = []
+        for gi in range(ng):
+            t = 2 + gi % 3
+            groups.append((gi + 1, t, [make_sentence(rng, b'g:%d-%d-%d' % (i + 1, t, gi + 1), bodies) for i in range(t)]))
+        case = [(sents[0], gid) for gid, t, sents in groups]
+        for k in range(1, 4):
+            case += [(sents[k], gid) for gid, t, sents in groups if k < t]
+        cases.insert(1, ('many-open-groups=%d' % ng, case, {gid: t for gid, t, _ in groups}))
     return cases
 
 
